@@ -100,6 +100,9 @@ var repeat int = -1
 func (h *Handler6) ProcessPacket(pkt packet.Frame) (err error) {
 	ip6Frame := pkt.IP6()
 	icmp6Frame := packet.ICMP(pkt.Payload())
+	if ip6Frame == nil { // icmp6 carried in a packet that is not IPv6
+		return packet.ErrParseFrame
+	}
 
 	if err := icmp6Frame.IsValid(); err != nil {
 		Logger6.Msg("error invalid icmp frame").ByteArray("frame", pkt.Payload()).Error(err).Write()
